@@ -22,6 +22,8 @@ def atom(x):
         return ("Nil",)
     if isinstance(x, float):
         return ("float", x.hex() if x == x and x not in (float("inf"), float("-inf")) else repr(x))
+    if type(x) is int and abs(x) >= 10 ** 4000:
+        return ("int", hex(x))      # (no decimal text for ints beyond CPython's 4300-digit conversion limit)
     if isinstance(x, (bool, int, str, bytes, uuid.UUID, _dt.datetime, _dt.date)):
         return (type(x).__name__, repr(x))
     if isinstance(x, tuple):
